@@ -33,7 +33,8 @@ func (c20) Meta() fw.Meta {
 		Rule: "case = (layout of 1-4 archives incl. N_fine == ratio and N_fine == ratio+1, maximum in {0,1,7,100,10^6}, fill on/off, generation instant). drivers: (a) the command's own generation path (randomPointsList + updateFileDataWithPointsList through the verif export hook, on a file made by Create, then Sync) at VIRTUAL instants covering every phase class: aligned to each step, +1, step-1, the late phase at which the oldest finer point coincides with the newest coarser interval, instants beyond 2^31; " +
 			"(b) the real generate binary inside a stable wall-clock second, launched across a second boundary, or slowed down by strace-injected delays on its page reads (runs that span several seconds must be consistent with ONE generation instant), after WAITING for the late phase when the layout has N_fine == ratio (steps 1-5 s), then a second invocation on the same path. " +
 			"oracle (library read at that instant + the harness' byte parser): header == request; without fill every physical slot is all-zero; with fill every slot of every archive's window (now-ret, now] is non-NaN with 0 <= v <= max*step_i/step_0, and every coarser slot whose ratio finer intervals all lie in the finer archive's window equals their sum (exact integers); existing destination => exit != 0 and bytes unchanged. " +
-			"non-trivial = filled file with >= 2 archives in which at least one fully covered and one partially covered coarser slot were checked; distinct by (layout, instant, max).",
+			"non-trivial = filled file with >= 2 archives in which at least one fully covered and one partially covered coarser slot were checked; distinct by (layout, instant, max)." +
+			" Also: generate with stdout (text output) on /dev/full - exit 0 only with a complete file; odd cases create from a list used before at another length.",
 		Assumptions: []string{
 			"generate's random values are non-negative integers, so sums are exact",
 			"CLI instants are wall-clock (phase steered by waiting); all other phases come from the function-level driver",
